@@ -135,6 +135,13 @@ def judge_spec(ctx, c, case, obs, c02reply):
         if mism != sorted(c02reply['mismatches']):
             problems.append(f'hash mismatches reported for pieces {mism}, expected {sorted(c02reply["mismatches"])} '
                             f'(interval {c["interval"]})')
+    if c['mode'] == 'generate' and c02reply is not None and c02reply['bad']:
+        # hashing: the error of a file that cannot be read as recorded is never held back by the interval either —
+        # generate() raises it (one of them, if several files are bad)
+        exp = c03.expected_outcome(c, c02reply)
+        if not c03._match_expected(exp, obs['result']):
+            problems.append(f'generate() on files whose size changed: outcome {obs["result"]}, expected {exp} '
+                            f'(interval {c["interval"]})')
     if problems:
         ctx.violation(f'{c["mode"]}(threads={c["threads"]}, interval={c["interval"]}): ' + '; '.join(problems[:3]),
                       case, 'callback contract of C12',
